@@ -638,9 +638,19 @@ static void exec_asm(Run &R, TaskRt &T, int ti, int oi, const Op &op) {
   }
   // success: update the model
   if (a.mode == M_FIT) {
-    if (a.c <= 48)
-      for (const Seg &sg : k.segs)
-        if (!sg.pad) g_fit_triples.insert((uint64_t)a.c << 32 | (uint64_t)(sg.start % a.c) << 8 | (uint64_t)sg.len);
+    if (a.c <= 48) {
+      // the position at which the instruction arrived (before any padding in front of it)
+      long arrive = -1;
+      for (const Seg &sg : k.segs) {
+        if (sg.pad) {
+          if (arrive < 0) arrive = sg.start;
+          continue;
+        }
+        long at = arrive >= 0 ? arrive : sg.start;
+        g_fit_triples.insert((uint64_t)a.c << 32 | (uint64_t)(at % a.c) << 8 | (uint64_t)sg.len);
+        arrive = -1;
+      }
+    }
     R.st.bump("fit_calls");
     R.st.bump("pads", k.pads);
     R.st.bump("gap_gt11_padded", k.pads_gt11);
